@@ -148,6 +148,38 @@ Theorem C28_delete_applies_defaults_next_request : forall c k t,
 Proof. intros. split; [apply check_rate_del|apply check_quota_del]. Qed.
 Print Assumptions C28_delete_applies_defaults_next_request.
 
+(* ---- 7. concurrent FIRST requests of a token ------------------------------------------ *)
+
+(* get-or-create of the token's counter is two critical sections (read-locked lookup, then on
+   a miss a write-locked section).  For ANY number of concurrent requests in ANY interleaving
+   of their steps (lookup / write-locked section / Allow), starting with no counter in the
+   map: because the write-locked section RE-CHECKS the map, at most one counter object is ever
+   created and at most `limit` requests are admitted in total. *)
+Theorem C28_first_requests_share_counter : forall limit s ts,
+  0 < limit -> greach true limit (s, ts) ->
+  gadm ts <= limit /\ (length (g_objs s) <= 1)%nat.
+Proof. exact first_requests_bounded. Qed.
+Print Assumptions C28_first_requests_share_counter.
+
+(* The re-check is necessary: without it (a counter built and stored unconditionally after a
+   missed lookup) two requests that both miss get a counter each, the second store overwrites
+   the first, and with limit 1 both are admitted.  Schedule: both look up (miss); request 0
+   creates counter 0 and is admitted on it; request 1 creates counter 1 and is admitted on it. *)
+Theorem C28_no_recheck_refuted :
+  exists c, greach false 1 c /\ gadm (snd c) = 2 /\ length (g_objs (fst c)) = 2%nat.
+Proof.
+  exists (grun false 1 g_init [GStart; GStart] [0; 1; 0; 0; 1; 1]%nat).
+  split; [|vm_compute; split; reflexivity].
+  apply grun_reach. apply (gr_spawn false 1 g_init [GStart]). apply (gr_spawn false 1 g_init []). apply gr_init.
+Qed.
+Print Assumptions C28_no_recheck_refuted.
+
+(* the same schedule under the code as it is: one counter, one admission *)
+Example C28_recheck_same_schedule :
+  let c := grun true 1 g_init [GStart; GStart] [0; 1; 0; 0; 1; 1]%nat in
+  gadm (snd c) = 1 /\ g_objs (fst c) = [1] /\ snd c = [GDone true; GDone false].
+Proof. vm_compute. repeat split. Qed.
+
 (* ---- 8. the counters on their own (any geometry, any op sequence) -------------------- *)
 
 Theorem C28_counter_aligned_window : forall w cnt0 lim t0 ops L a,
